@@ -9,6 +9,7 @@ import torch
 from .c20_impl import abs_code, combine, leaf_tensor, numel, tree_is_empty, walk, P
 
 DEFAULT = ("default",)
+MISSING = []               # keys found missing without default= during the current reference run
 TENS = [leaf_tensor]       # the tensor of a leaf id under a batch shape (replaced for the stacked view of a lazy stack)
 
 
@@ -72,7 +73,9 @@ def ref_level(o, S, others, prefix, root, nones):
             e = lookup(ot, k)
             if e is None:
                 if not o["default"]:
-                    raise KeyError(k)
+                    # a documented KeyError; the traversal goes on so that a gray condition met later (in another
+                    # iteration order the code may meet it first) is not missed
+                    MISSING.append(k)
                 e = DEFAULT
             args.append(e)
         if (root and o["con"]) or is_leaf(o, item):
@@ -134,9 +137,9 @@ def reference(case):
                 errs.add("RuntimeError")                       # batch_size and out.batch_size must be equal
             if o["dev"] != "absent" and o["dev"] != out[2][1] and not o["checked"]:
                 errs.add("RuntimeError")                       # device and out.device must be equal
-        try:
-            r = ref_level(o, S, others, (), True, nones)
-        except KeyError:
+        del MISSING[:]
+        r = ref_level(o, S, others, (), True, nones)
+        if MISSING:
             errs.add("KeyError")
             r = None
         if errs:
